@@ -124,6 +124,23 @@ Proof.
     rewrite exec_bind, Et. reflexivity.
 Qed.
 
+(* ---- a decryption secrets block cut short *)
+Lemma trunc_dsb ro F g s ty pl k :
+  r_big s = false -> 0 <= ty < 4294967296 -> zlen pl < 4294967000 ->
+  (0 < k < length (enc_dsb ty pl))%nat ->
+  exists s', exec (readPacketG ro F (S g)) s (firstn k (enc_dsb ty pl)) = ((s', Err 2), []).
+Proof.
+  intros Hbig Ht Hp Hk. destruct (enc_dsb_shape ty pl Ht Hp) as (E & HL & Hz). cbv zeta in *.
+  set (L := 20 + zlen pl + pad4 (zlen pl)) in *. rewrite E in *.
+  match type of E with _ = le_bytes 4 10 ++ le_bytes 4 L ++ ?b => set (body := b) in * end.
+  destruct (Nat.lt_ge_cases k 8) as [Hlt|Hge].
+  - apply rpg_short. rewrite zlen_firstn by lia. lia.
+  - rewrite (app_assoc (le_bytes 4 10)) in *. rewrite firstn_app_split by (rewrite app_length, !le_bytes_length; lia).
+    rewrite !app_length, !le_bytes_length in Hk. rewrite app_length, !le_bytes_length. rewrite <- app_assoc. cbn [Nat.add] in *.
+    unfold readPacketG. rewrite exec_bind, hdr_dsb_step by assumption.
+    rewrite exec_disc_short by (unfold zlen in *; rewrite firstn_length; lia). eauto.
+Qed.
+
 (* ---------------------------------------------------------------- scripts split in two *)
 Lemma ops_ok_app : forall a ws b, ops_ok ws (a ++ b) -> ops_ok ws a /\ ops_ok (ws_after ws a) b.
 Proof.
@@ -131,6 +148,7 @@ Proof.
   destruct op as [w|ifid ts caplen len data o|ifid st|ty pl]; cbn [app ops_ok ws_after] in *; try contradiction.
   - destruct H as (Hw & H). destruct (IH _ _ H). auto.
   - destruct H as (Hw & H). destruct (IH _ _ H). auto.
+  - destruct H as (H1 & H2 & H3 & H). destruct (IH _ _ H). auto.
 Qed.
 
 Lemma enc_ops_app a b : enc_ops (a ++ b) = enc_ops a ++ enc_ops b.
@@ -182,7 +200,8 @@ Proof.
     destruct nxt as [w|ifid ts caplen len data o|ifid st|ty pl]; cbn [ops_ok enc_op] in *; try contradiction.
     - destruct Hoknxt as (Hw & _). destruct (trunc_idb ro F g s w (S k') Hbig Hw) as (s' & E); [pose proof (idb_options_len w); lia|lia|eauto].
     - destruct Hoknxt as (Hwf & _). rewrite <- Hifs in Hwf.
-      destruct (trunc_epb ro F g s ifid ts caplen len data o (S k') Hmix Hbig HFn Hwf) as (s' & E); [lia|eauto]. }
+      destruct (trunc_epb ro F g s ifid ts caplen len data o (S k') Hmix Hbig HFn Hwf) as (s' & E); [lia|eauto].
+    - destruct Hoknxt as (_ & Hty & Hpl & _). destruct (trunc_dsb ro F g s ty pl (S k') Hbig Hty Hpl) as (s' & E); [lia|eauto]. }
   assert (length pre < F)%nat as HlFp by lia.
   destruct (read_all_script ro F _ _ _ Hmix Htail (length pre) pre [] s0 [] F
               (le_n _) HlFp HlFp (conj Q1 Q2) Hokpre (conj HF12 HFpre) eq_refl) as (s' & l' & E).
